@@ -26,6 +26,9 @@ type Script struct {
 	// PreStart: the producer is started, and has filled the input buffer or is blocked in its
 	// first send, before the discipline is created
 	PreStart bool `json:"producer_started_before_creation,omitempty"`
+	// Elem: element type the generic discipline is instantiated with: "" = int, "empty" = struct{}
+	// (zero size: order cannot be observed, only count, timing and closure), "wide" = a 264-byte struct
+	Elem string `json:"element_type,omitempty"`
 }
 
 // Trace is what was observed.
@@ -75,8 +78,25 @@ func (s Script) steadyConsumer() (int64, bool) {
 	return d, true
 }
 
+type wide struct {
+	id  int
+	pad [32]int64
+}
+
 // Execute runs the script against the real limit discipline inside a bubble.
 func execute1(t *testing.T, s Script, leakScan bool, budget time.Duration) Trace {
+	switch s.Elem {
+	case "empty":
+		return executeT(t, s, leakScan, budget, func(int) struct{} { return struct{}{} }, func(_ struct{}, k int) int { return k })
+	case "wide":
+		return executeT(t, s, leakScan, budget, func(i int) wide { return wide{id: i} }, func(w wide, _ int) int { return w.id })
+	}
+	return executeT(t, s, leakScan, budget, func(i int) int { return i }, func(v int, _ int) int { return v })
+}
+
+// executeT : mk makes element #i, val tells which element number a received value is (for a
+// zero-size type: the position it was received at).
+func executeT[T any](t *testing.T, s Script, leakScan bool, budget time.Duration, mk func(int) T, val func(T, int) int) Trace {
 	n := len(s.Gaps)
 	tr := Trace{WStart: make([]int64, 0, n), WDone: make([]int64, 0, n), ClosedAt: -1}
 	var before map[string]string
@@ -86,12 +106,12 @@ func execute1(t *testing.T, s Script, leakScan bool, budget time.Duration) Trace
 	res := bubble.RunBudget(t, budget, func() {
 		epoch := time.Now()
 		now := func() int64 { return int64(time.Since(epoch)) }
-		in := make(chan int, s.InCap)
+		in := make(chan T, s.InCap)
 		produce := func() {
 			for i, g := range s.Gaps {
 				time.Sleep(time.Duration(g))
 				tr.WStart = append(tr.WStart, now())
-				in <- i
+				in <- mk(i)
 				tr.WDone = append(tr.WDone, now())
 			}
 			time.Sleep(time.Duration(s.CloseGap))
@@ -102,7 +122,16 @@ func execute1(t *testing.T, s Script, leakScan bool, budget time.Duration) Trace
 			go produce()
 			bubble.Wait() // the producer has written what fits and is blocked (or done)
 		}
-		dsc, err := limit.New(limit.Opts[int]{Input: in, Limit: limit.Rate{Interval: time.Duration(s.I), Quantity: s.Q}})
+		var dsc *limit.Discipline[T]
+		var err error
+		func() {
+			defer func() {
+				if r := recover(); r != nil {
+					err = fmt.Errorf("limit.New panicked: %v", r)
+				}
+			}()
+			dsc, err = limit.New(limit.Opts[T]{Input: in, Limit: limit.Rate{Interval: time.Duration(s.I), Quantity: s.Q}})
+		}()
 		if err != nil {
 			tr.NewErr = err.Error()
 			if s.PreStart {
@@ -126,7 +155,7 @@ func execute1(t *testing.T, s Script, leakScan bool, budget time.Duration) Trace
 				break
 			}
 			tr.Recv = append(tr.Recv, now())
-			tr.Vals = append(tr.Vals, v)
+			tr.Vals = append(tr.Vals, val(v, len(tr.Vals)))
 		}
 		if !leakScan {
 			return
@@ -377,6 +406,7 @@ func Gen(thorough bool) *rapid.Generator[Script] {
 			}
 		}
 		s.PreStart = rapid.IntRange(0, 2).Draw(t, "prestart") == 0
+		s.Elem = rapid.SampledFrom([]string{"", "", "", "", "empty", "wide"}).Draw(t, "elem")
 		if s.Q <= 1000 && rapid.IntRange(0, 7).Draw(t, "steady") == 0 {
 			// everything up-front, several batches, a consumer that needs a fixed time per element
 			// and is still faster than the limit (output back-pressure inside a batch)
